@@ -498,6 +498,10 @@ def r01_5(run, rid='R01.5', classes=('2xx', '5xx', 'other', 'none')):
             ob('next command issued once, after the slot is cleared', ok_issue, 'issue-after-reset',
                '_maybe_issue_command not called exactly once after clearing the slot')
             if cls == '5xx':
+                # the error carries the reply text as Tor sent it: nothing is cut off it (the "\nOK" trailer belongs to 2xx replies
+                # only; a multi-line 5xx whose last line reads OK keeps that line)
+                ob('5xx: the error text is what Tor sent (nothing cut off before the errback)', 'cut' not in tags[:tags.index('errback')], 'error-text-uncut',
+                   'the text of a 5xx reply is shortened before it is put into the error: a multi-line error whose closing line reads "OK" loses it')
                 call = [a for t, _, a in eff if t == 'errback'][0]
                 arg = _resolve_name(defs, call.args[0]) if call.args else None
                 okerr = isinstance(arg, ast.Call) and dotted(arg.func) in ('TorProtocolError',) and arg.args and \
@@ -930,6 +934,7 @@ RULES = [
 from ..selftest import M  # noqa: E402
 F = 'txtorcon/torcontrolprotocol.py'
 MUTANTS = [
+    M('ok-trailer-cut-from-every-reply', F, ["        self.response = ''\n        if self.code is None:", "            if resp.endswith('\\nOK'):\n                resp = resp[:-3]\n            self.defer.callback(resp)"], ["        self.response = ''\n        if resp.endswith('\\nOK'):\n            resp = resp[:-3]\n        if self.code is None:", "            self.defer.callback(resp)"], ['R01.5']),
     M('crlf-only-when-missing', F, "            data = cmd + b'\\r\\n'\n", "            data = cmd if cmd.endswith(b'\\r\\n') else cmd + b'\\r\\n'\n", ['R01.2']),
     M('linecb-gets-stuffed-line', F, "        if line.startswith('.'):\n            line = line[1:]\n        if self._wants_lines():\n            self.command[2](line)\n", "        if self._wants_lines():\n            self.command[2](line)\n            return None\n        if line.startswith('.'):\n            line = line[1:]\n        if False:\n            pass\n", ['R01.12/R13.1']),
     M('empty-status-line-dropped', F, "sl = len(line) > 3 and line[3] == ' '", "sl = len(line) > 4 and line[3] == ' '", ['R01.6']),
